@@ -1,6 +1,6 @@
 (* Executable model of bigtree/tree/helper.py get_tree_diff (lines 336-424, after fix F6) together with
    the parts of export.tree_to_dataframe (export.py:851-894) and construct.dataframe_to_tree /
-   add_path_to_tree / add_dict_to_tree_by_path (construct.py:93-128, 189-201, 996-1035) it relies on.
+   add_path_to_tree / add_dict_to_tree_by_path (construct.py:93-128, 189-201, 996-1038; line numbers of /repo at 09acfdb) it relies on.
 
    Everything is a pure list function over strings (str = list N):
      table      the two (PATH, name, attribute columns) tables, pre-order;
@@ -156,7 +156,7 @@ Fixpoint add_paths (root : str) (nodes : list nid) (paths : list str) : res (lis
       end
   end.
 
-(* dataframe_to_tree(data_both[[PATH]]) (construct.py:1004-1035); no attribute columns, so the
+(* dataframe_to_tree(data_both[[PATH]]) (construct.py:1004-1038; rows are read as records since 599b827); no attribute columns, so the
    duplicate check cannot fire and every node is created without attributes *)
 Definition rebuild (paths : list str) : res (str * list nid) :=
   let sp := map (fun p => rstrip (lstrip p slash) slash) paths in
@@ -277,3 +277,17 @@ Definition get_tree_diff_seps (sep sep2 : str) (t1 t2 : tree) (only_diff : bool)
   : res (option (list onode)) :=
   let sep_other := sep in                     (* other_tree.sep = tree.sep; sep2 is overwritten *)
   diff_of_rows sep (marked_rows_seps sep sep_other al t1 t2) only_diff al.
+
+(* BinaryNode inputs: the result is rebuilt with node_type = tree.__class__ (helper.py:412); a BinaryNode
+   refuses a third child (binarynode.py:194-201, TreeError), so the call raises as soon as some node of
+   the result would have more than two children.  Nothing else depends on the node class. *)
+Definition parent_path (s : str) : str := join slash (removelast (split s slash)).
+Definition binary_overflow (l : list onode) : bool :=
+  existsb (fun n => Nat.ltb 2 (length (filter (fun m => str_eqb (parent_path (fst m)) (fst n)) l))) l.
+
+Definition get_tree_diff_cls (binary : bool) (sep sep2 : str) (t1 t2 : tree) (only_diff : bool) (al : list str)
+  : res (option (list onode)) :=
+  match get_tree_diff_seps sep sep2 t1 t2 only_diff al with
+  | Ret (Some l) => if binary && binary_overflow l then Raise TreeError else Ret (Some l)
+  | r => r
+  end.
